@@ -597,6 +597,14 @@ fn enumerate_filter(base: &str, unit_name: &str) -> Vec<Case> {
             push(&d, Some("utf8-splice"), format!("utf8-insert@{off}+{k}"));
         }
     }
+    // ill-formed UTF-8 of every kind at every offset (reaches the parser through the C entry point)
+    for off in 0..=n {
+        for (k, seq) in mutate::BAD_UTF8.iter().enumerate() {
+            let mut d = b.to_vec();
+            d.splice(off..off, seq.iter().cloned());
+            push(&d, Some("bad-utf8"), format!("bad-utf8#{k}@{off}"));
+        }
+    }
     // operators without operands, unbalanced parentheses
     for op in ["and", "or", "not", "==", "!=", "<", "<=", ">", ">=", "*==", "->", "?"] {
         let mut from = 0;
